@@ -29,7 +29,7 @@ PROP = dict(
         H(NH, "c14", "c14_ef_size", "real per-field encoder: cookie and placeholder fields occupy exactly max(16, 4 + L rounded up to 4) bytes (all L <= 1024)", timeout=300),
         H(NH, "c14", "c14_ef_nofit", "real per-field encoder when the remaining buffer is too small (L <= 64, room <= 80): error, never a panic; written iff it fits", timeout=300),
         H(NH, "c14", "c14_budget", "margin rule vs. field sizes: fixed part + min(missing, floor(724/max(L,1))) cookie-sized fields <= 1024 for all L, fills, versions", timeout=120),
-        H(NH, "c14", "c14_write_zeros_model", "loop-free write_zeros model = real loop (bytes, position, success) for n <= 128, room <= 160 (the model is only reached with padding-sized n)", timeout=300),
+        H(NH, "c14", "c14_write_zeros_model", "loop-free write_zeros model = real loop (bytes, position, success) for n <= 40, room <= 48 (the model is only reached with padding-sized n)", timeout=300),
         H(NH, "c14", "c14_poll_plain_v4", "source without NTS, NTPv4, real builder + encoder: Send(<= 1024)+SetTimer, Reset or Demobilize; never a panic", timeout=300),
         H(NH, "c14", "c14_poll_plain_upgrading", "same, NTPv4 with upgrade request", timeout=300),
         H(NH, "c14", "c14_poll_plain_upgraded", "same, just upgraded to NTPv5 (incl. fallback to NTPv4)", timeout=600),
